@@ -161,7 +161,7 @@ func (rd *ReorgDetector) detectReorgInTrackedList(ctx context.Context) error {
 	}
 
 	var (
-		headersCacheLock sync.Mutex
+		headersCacheLock = newHeadersCacheLock()
 		headersCache     = map[uint64]*types.Header{
 			lastFinalisedBlock.Number.Uint64(): lastFinalisedBlock,
 		}
